@@ -91,6 +91,7 @@ func init() {
 		return nil
 	})
 	blockingIntrinsics["(*sync.RWMutex).Lock"] = func(x *Exec, s *State, c *CallCtx) (Value, bool) {
+		x.maybePreempt(s)
 		p := c.Args[0].(*PtrVal)
 		busy := x.tb.Or(x.tb.Not(x.tb.Eq(x.cellGet(s, p, 1), zero(x))), x.tb.Not(x.tb.Eq(x.cellGet(s, p, 2), zero(x))))
 		if x.acquire(s, busy, "lock", x.objID(p)) {
@@ -109,6 +110,7 @@ func init() {
 		return nil
 	})
 	blockingIntrinsics["(*sync.RWMutex).RLock"] = func(x *Exec, s *State, c *CallCtx) (Value, bool) {
+		x.maybePreempt(s)
 		p := c.Args[0].(*PtrVal)
 		busy := x.tb.Not(x.tb.Eq(x.cellGet(s, p, 1), zero(x)))
 		if x.acquire(s, busy, "rlock", x.objID(p)) {
